@@ -3,7 +3,14 @@
  * (endpoint url / host / port, login id, key).
  * Generator: every scheme spelling in several letter cases x optional user:key x host forms (name, IPv4, bracketed
  * IPv6) x port absent / 1 / 8080 / 65535 x path / query / fragment present or not x explicit credentials or not x
- * aggregator / extender. */
+ * aggregator / extender.
+ * Sequences: the transport selection is STATE of the context, so every sequence of one, two and three successive
+ * KSI_CTX_setAggregator / KSI_CTX_setExtender calls (each step: either service x one URI of every scheme class
+ * ksi / ksi+http / ksi+https / ksi+tcp / file / http / https / unlisted scheme, several letter cases) is run on a fresh
+ * KSI_CTX.  Reference: after the sequence each service is bound to the transport of the scheme class of the LAST URI it
+ * was given (HTTP for the ksi* http classes and for every unlisted scheme, TCP for ksi+tcp, file for file), that
+ * transport holds the endpoint and login id of that last URI, the other service is not affected, and a sign / extend
+ * request prepared (not sent) through the context's network provider is owned by that transport. */
 #include "replay/replay_common.h"
 #include "spec/uri.h"
 #include <ksi/net_uri.h>
@@ -12,6 +19,8 @@
 #include "impl/net_uri_impl.h"
 #include "impl/net_http_impl.h"
 #include "impl/net_tcp_impl.h"
+#include "impl/net_file_impl.h"
+#include "impl/ctx_impl.h"
 
 static KSI_CTX *ctx; static int bad, total;
 static const char *schemes[] = { "ksi", "KSI", "kSi", "ksi+http", "KSI+HTTP", "Ksi+Http", "ksi+https", "KSI+HTTPS", "kSI+hTTPs", "ksi+tcp", "KSI+TCP", "Ksi+Tcp", "http", "https", "HTTP", "ksi+", "ksix", "ks" };
@@ -65,6 +74,104 @@ static void check(const char *scheme, int withCreds, const char *host, unsigned 
 	KSI_NetworkClient_free(c);
 }
 
+/* ---- sequences of service set-up calls on one context ---- */
+static const struct { const char *fmt; int cls; } seq_uris[] = {
+	{ "ksi://h%d.example/a", SPEC_URI_HTTP }, { "ksi+http://h%d.example:81/a", SPEC_URI_HTTP }, { "KSI+HTTPS://h%d.example/a", SPEC_URI_HTTP },
+	{ "ksi+tcp://h%d.example:3332", SPEC_URI_TCP }, { "Ksi+Tcp://h%d.example:1", SPEC_URI_TCP },
+	{ "file:///tmp/ksi_c20_h%d.example", SPEC_URI_FILE }, { "FILE://rel/h%d.example", SPEC_URI_FILE },
+	{ "http://h%d.example:8080/svc", SPEC_URI_UNKNOWN }, { "HTTPS://h%d.example/svc", SPEC_URI_UNKNOWN }, { "xyz://h%d.example/svc", SPEC_URI_UNKNOWN },
+};
+#define SEQ_NURI ((int)(sizeof(seq_uris) / sizeof(seq_uris[0])))
+static const int seq_short[] = { 0, 2, 3, 5, 7, 8 };      /* one or two URIs per class for the sequences of three */
+static int bad_seq, total_seq;
+
+static const char *tname(KSI_UriClient *uc, KSI_NetworkClient *c) {
+	return c == NULL ? "none" : c == uc->httpClient ? "HTTP" : c == uc->tcpClient ? "TCP" : c == uc->fsClient ? "file" : "another object";
+}
+static const char *cname(int cls) { return cls == SPEC_URI_TCP ? "TCP" : cls == SPEC_URI_FILE ? "file" : "HTTP"; }
+
+/* transport that owns a request prepared (not sent) through the context's provider; NULL if it cannot be prepared */
+static KSI_NetworkClient *owner_of_request(KSI_CTX *c, int extender) {
+	KSI_RequestHandle *h = NULL; KSI_NetworkClient *ret = NULL; KSI_Integer *id = NULL, *t = NULL;
+	KSI_Integer_new(c, 17, &id);
+	if (!extender) {
+		KSI_AggregationReq *req = NULL; KSI_DataHash *hsh = NULL;
+		KSI_AggregationReq_new(c, &req); KSI_DataHash_create(c, "x", 1, KSI_HASHALG_SHA2_256, &hsh);
+		KSI_AggregationReq_setRequestHash(req, hsh); KSI_AggregationReq_setRequestId(req, id);
+		if (KSI_NetworkClient_sendSignRequest(c->netProvider, req, &h) == KSI_OK && h != NULL) ret = h->client;
+		KSI_RequestHandle_free(h); KSI_AggregationReq_free(req);
+	} else {
+		KSI_ExtendReq *req = NULL;
+		KSI_ExtendReq_new(c, &req); KSI_Integer_new(c, 1400000000, &t);
+		KSI_ExtendReq_setAggregationTime(req, t); KSI_ExtendReq_setRequestId(req, id);
+		if (KSI_NetworkClient_sendExtendRequest(c->netProvider, req, &h) == KSI_OK && h != NULL) ret = h->client;
+		KSI_RequestHandle_free(h); KSI_ExtendReq_free(req);
+	}
+	return ret;
+}
+
+/* steps[i] = service * SEQ_NURI + uri index */
+static void sequence(const int *steps, int n) {
+	KSI_CTX *c = NULL; KSI_UriClient *uc; KSI_NetworkClient *init[2], *sel, *want; int i, svc, last[2] = { -1, -1 }, res; char uri[128], user[16], key[16], desc[512] = "", tag[32];
+	total_seq++;
+	if (KSI_CTX_new(&c) != KSI_OK) return;
+	uc = c->netProvider->impl;
+	init[0] = uc->pAggregationClient; init[1] = uc->pExtendClient;
+	for (i = 0; i < n; i++) {
+		int u = steps[i] % SEQ_NURI; svc = steps[i] / SEQ_NURI;
+		snprintf(uri, sizeof(uri), seq_uris[u].fmt, i); snprintf(user, sizeof(user), "user%d", i); snprintf(key, sizeof(key), "key%d", i);
+		snprintf(desc + strlen(desc), sizeof(desc) - strlen(desc), "%s%s(\"%s\")", i ? ", then " : "", svc ? "setExtender" : "setAggregator", uri);
+		res = svc ? KSI_CTX_setExtender(c, uri, user, key) : KSI_CTX_setAggregator(c, uri, user, key);
+		if (res != KSI_OK) {
+			if (bad_seq++ < 12) printf("%s: step %d refused with 0x%x, expected to be accepted\n", desc, i + 1, res);
+			KSI_CTX_free(c); return;
+		}
+		last[svc] = i;
+	}
+	for (svc = 0; svc < 2; svc++) {
+		int fails = 0;
+		sel = svc ? uc->pExtendClient : uc->pAggregationClient;
+		if (last[svc] < 0) {
+			if (sel != init[svc]) { if (bad_seq++ < 12) printf("%s: the %s, never configured, moved from the %s to the %s transport\n", desc, svc ? "extender" : "aggregator", tname(uc, init[svc]), tname(uc, sel)); }
+			continue;
+		} else {
+			int cls = seq_uris[steps[last[svc]] % SEQ_NURI].cls; KSI_NetEndpoint *ep; const char *where = NULL, *u = NULL; KSI_NetworkClient *own;
+			want = cls == SPEC_URI_TCP ? uc->tcpClient : cls == SPEC_URI_FILE ? uc->fsClient : uc->httpClient;
+			snprintf(tag, sizeof(tag), "h%d.example", last[svc]); snprintf(user, sizeof(user), "user%d", last[svc]);
+			if (sel != want || want == NULL) {
+				if (bad_seq++ < 12) printf("%s: the %s is bound to the %s transport, the scheme of its last URI selects %s\n", desc, svc ? "extender" : "aggregator", tname(uc, sel), cname(cls));
+				fails++;
+			}
+			if (want != NULL) {
+				ep = svc ? want->extender : want->aggregator;
+				if (ep != NULL && ep->implCtx != NULL) {
+					if (cls == SPEC_URI_TCP) where = ((struct TcpClient_Endpoint_st *)ep->implCtx)->host;
+					else if (cls == SPEC_URI_FILE) where = ((struct FsClient_Endpoint_st *)ep->implCtx)->path;
+					else where = ((struct HttpClient_Endpoint_st *)ep->implCtx)->url;
+					u = ep->ksi_user;
+				}
+				if (where == NULL || strstr(where, tag) == NULL) { if (bad_seq++ < 12) printf("%s: the %s transport of the %s holds endpoint \"%s\", expected the one of the last URI (%s)\n", desc, cname(cls), svc ? "extender" : "aggregator", where ? where : "(null)", tag); fails++; }
+				if (!spec_uri_streq(u, user)) { if (bad_seq++ < 12) printf("%s: the %s transport of the %s holds login id \"%s\", expected \"%s\"\n", desc, cname(cls), svc ? "extender" : "aggregator", u ? u : "(null)", user); fails++; }
+			}
+			own = owner_of_request(c, svc);
+			if (own != NULL && own != want && !fails) {
+				if (bad_seq++ < 12) printf("%s: %s request prepared through the context is owned by the %s transport, expected %s\n", desc, svc ? "an extend" : "a sign", tname(uc, own), cname(cls));
+			} else if (own != NULL && own != want && bad_seq <= 12) printf("   (%s request prepared through the context is owned by the %s transport)\n", svc ? "an extend" : "a sign", tname(uc, own));
+		}
+	}
+	KSI_CTX_free(c);
+}
+
+static void sequences(void) {
+	int st[3], a, b, d, ns = (int)(sizeof(seq_short) / sizeof(seq_short[0]));
+	for (a = 0; a < 2 * SEQ_NURI; a++) { st[0] = a; sequence(st, 1); }
+	for (a = 0; a < 2 * SEQ_NURI; a++) for (b = 0; b < 2 * SEQ_NURI; b++) { st[0] = a; st[1] = b; sequence(st, 2); }
+	for (a = 0; a < 2 * ns; a++) for (b = 0; b < 2 * ns; b++) for (d = 0; d < 2 * ns; d++) {
+		st[0] = (a / ns) * SEQ_NURI + seq_short[a % ns]; st[1] = (b / ns) * SEQ_NURI + seq_short[b % ns]; st[2] = (d / ns) * SEQ_NURI + seq_short[d % ns];
+		sequence(st, 3);
+	}
+}
+
 int main(int argc, char **argv) {
 	size_t s, h, p; int creds, expl, ext, shape;
 	rp_init(argc, argv);
@@ -78,6 +185,9 @@ int main(int argc, char **argv) {
 		say("ksi+http://u:k@example.com:8080/p/q?x#f", "KSI_UriSplitBasic", ho, "example.com");
 	  KSI_free(sc); KSI_free(ho); KSI_free(pa); }
 	printf("%d URIs checked\n", total);
+	sequences();
+	printf("%d sequences of service set-up calls checked\n", total_seq);
+	if (bad_seq) { printf("%d finding(s) in sequences: the transport a service is bound to does not follow the scheme of the last URI it was given\n", bad_seq); if (!bad) RP_FAIL("transport selection after a sequence of KSI_CTX_setAggregator / KSI_CTX_setExtender calls disagrees with the reference (%d findings)", bad_seq); }
 	if (bad) RP_FAIL("service URI handling disagrees with the reference (%d findings, %d of them: IPv6 literal host loses its brackets in the URL handed to HTTP)", bad, bad_v6);
 	printf("no disagreement in the neighbourhood\n");
 	return 0;
